@@ -95,11 +95,13 @@ def run(ctx):
     # ---- the first sentence on grammar-driven parses: the queue a successful VM parse leaves behind (hook H1)
     sbatches = []
     stot = {"grammars": 0, "cases": 0, "tokens": 0}
-    for (name, shards, size, length) in ([("wsmod", 2, 1, 4), ("core", 2, 3, 3), ("skip", 4, 3, 3)] if quick else [("wsmod", 2, 1, 4), ("core", 8, 4, 3), ("ws", 8, 3, 3), ("wsref", 4, 3, 3), ("skip", 8, 4, 4)]):
+    for (name, shards, size, length) in ([("wsmod", 2, 1, 4), ("core", 2, 3, 3), ("skip", 4, 3, 3)] if quick else [("wsmod", 2, 1, 4), ("core", 8, 4, 3), ("ws", 8, 3, 3), ("wsref", 4, 3, 3), ("skip", 8, 3, 4)]):
         cases, rs, n = gen_slice(ctx, name, shards, size, length, jobs=12)
         for r in rs:
             ctx.cov["states"] += r.distinct
             ctx.cov["transitions"] += r.generated
+        if name == "skip" and not quick:
+            thin(cases, 4)      # with inputs up to length 4 the whole slice is several GB of streams
         out = os.path.join(ctx.work, "str_%s.ndjson" % name)
         s = run_json([vh, "streams-emit", "--cases", cases, "--out", out], timeout=6000)
         os.remove(cases)
